@@ -1,4 +1,9 @@
+#[cfg(not(feature = "multiqueue2_verif"))]
 use std::sync::atomic::{AtomicUsize, Ordering};
+#[cfg(feature = "multiqueue2_verif")]
+use crate::verif_hooks::AtomicUsize;
+#[cfg(feature = "multiqueue2_verif")]
+use std::sync::atomic::Ordering;
 
 const UPDATE_EPOCH: usize = 1;
 const NO_READER: usize = 1 << 1;
